@@ -2,6 +2,7 @@ import NxProofs.RmcServer
 import NxProofs.RmcResult
 import NxProofs.RmcRequest
 import NxProofs.RmcServerObj
+import NxProofs.RmcListener
 /-!
 # C11 — an RMC server answers every request exactly once with the right outcome
 
@@ -33,6 +34,11 @@ Registered OBJECTS and slow handlers (`NxModel/Nex/RmcServerObj.lean`): what is 
 subclass of a generated class — it may be falsy (`__len__` / `__bool__` of a subclass keeping a registry or a queue) — and
 its user methods are coroutines that may await for any time. `handleTimed` = `generatedHandle` + `react` over the objects'
 classes and the time that passes; the correspondence drives the real loop on a virtual clock and compares answer and time.
+A LISTENER with several connections (`NxModel/Nex/RmcListener.lean`, `NxProofs/RmcListener.lean`): `rmc.serve` /
+`serve_on_transport` give every accepted connection an `RMCClient` of its own that starts with the listener's servers; a
+handler may attach further servers to ITS connection (`client.register_server`). `RmcListener.step` is the listener over
+accept / close / register / request events; the table a request is answered from (`react`, hence everything above) is that
+of its own connection. The correspondence replays whole lives of real listeners (driver lines `lnew lacc lclose lreg lreq`).
 Statements only; proofs in `NxProofs/RmcServer.lean`, `NxProofs/RmcResult.lean`, `NxProofs/RmcRequest.lean`.
 -/
 namespace Nx.C11
@@ -405,5 +411,55 @@ example : handleTimed [{ srv := { protocol := 14, noresponse := true, methods :=
     { mode := 0, protocol := 14, method := some 1, callId := 9, error := -1, body := [] } none
     (.wait 600000 (.done (.returns .good (.returned []))))
     = (600000, some (.returned []), .silent) := by decide
+
+/-! ### a listener with several connections: registration is per connection -/
+open Nx.RmcListener in
+/-- what connection `c` registers for itself does not exist for another connection `d`: a request for that protocol on `d`
+    is still answered `Core::NotImplemented`, and `d` can register an instance of its own -/
+theorem listener_registration_is_per_connection (l : Listener) (c d : Nat) (s : Server) (hcd : d ≠ c)
+    (td : List Server) (hd : tableOf d l.conns = some td) (hp : findServer s.protocol td = none)
+    (req : Msg) (m : Nat) (w : ReqWF req m) (hreq : req.protocol = s.protocol) (h : HandleResult) :
+    (step (step l (.register c s)).1 (.request d req h)).2
+        = .reaction (.sends (specEncode (.failure req.protocol req.callId 0x80010002))) ∧
+    (∀ s' : Server, s'.protocol = s.protocol → (step (step l (.register c s)).1 (.register d s')).2 = .registered true) := by
+  have ht : tableOf d (step l (.register c s)).1.conns = some td := by rw [step_other l (.register c s) d hcd, hd]
+  refine ⟨?_, fun s' hs' => (register_ok _ d td s' ht (by rw [hs']; exact hp)).1⟩
+  rw [request_not_here _ d td req m w ht (by rw [hreq]; exact hp) h]
+
+open Nx.RmcListener in
+/-- whole histories: whatever OTHER connections do (accept, register, request, close — any number of events), the servers of
+    connection `d` stay what they were; and the listener's own list never changes -/
+theorem listener_history_frame (l : Listener) (evs : List Ev) (d : Nat) (h : ∀ e ∈ evs, d ≠ e.conn) :
+    tableOf d (run l evs).1.conns = tableOf d l.conns ∧ (run l evs).1.servers = l.servers :=
+  ⟨run_other l evs d h, run_servers l evs⟩
+
+open Nx.RmcListener in
+/-- a registration ends with its connection: after ANY history a newly accepted connection starts with exactly the
+    listener's servers, and a closed connection has none -/
+theorem listener_accept_starts_with_listeners_servers (l : Listener) (evs : List Ev) (c : Nat) :
+    tableOf c (step (run l evs).1 (.accept c)).1.conns = some l.servers ∧
+    tableOf c (step (run l evs).1 (.close c)).1.conns = none := by
+  refine ⟨?_, close_forgets _ c⟩
+  rw [accept_fresh, run_servers]
+
+open Nx.RmcListener in
+/-- on ONE connection the second registration of a protocol raises (the handler's exception: PythonCore::Exception by
+    `outcome_table`) and changes nothing -/
+theorem listener_second_registration_raises (l : Listener) (c : Nat) (t : List Server) (s s' : Server)
+    (ht : tableOf c l.conns = some t) (hp : findServer s.protocol t = some s') :
+    step l (.register c s) = (l, .registered false) :=
+  register_dup l c t s s' ht hp
+
+/-- connections 0 and 1 of a listener serving protocol 10: 0 registers protocol 110; 1 asks for it -> NotImplemented;
+    1 registers its own -> fine; 0 registers it again -> raises; 0 closes, a new connection 0 asks -> NotImplemented -/
+example :
+    let srv (p : Nat) : Server := { protocol := p, noresponse := false, methods := [{ id := 1, supported := true, resp := .none }] }
+    let rq : Msg := { mode := 0, protocol := 110, method := some 1, callId := 7, error := -1, body := [] }
+    let ni : Nx.RmcListener.Out := .reaction (.sends [10, 0, 0, 0, 110, 0, 2, 0, 1, 0x80, 7, 0, 0, 0])
+    (Nx.RmcListener.run { servers := [srv 10], conns := [] }
+      [.accept 0, .accept 1, .register 0 (srv 110), .request 1 rq (.returned []), .register 1 (srv 110), .request 1 rq (.returned []),
+       .register 0 (srv 110), .close 0, .accept 0, .request 0 rq (.returned [])]).2
+    = [.nothing, .nothing, .registered true, ni, .registered true,
+       .reaction (.sends [10, 0, 0, 0, 110, 1, 7, 0, 0, 0, 1, 0x80, 0, 0]), .registered false, .nothing, .nothing, ni] := by decide
 
 end Nx.C11
